@@ -94,6 +94,13 @@ func propFunctions(cf *ContractFile, prop string) []string {
 				}
 			}
 		}
+		if fc.Measure != nil {
+			for _, p := range fc.Measure.Props {
+				if p == prop {
+					hit = true
+				}
+			}
+		}
 		for _, lc := range fc.Loops {
 			for _, c := range append(append([]*Clause{}, lc.Invariants...), lc.Decreases...) {
 				for _, p := range c.Props {
